@@ -191,14 +191,20 @@ impl LanguageServer for Backend {
                 self.publish_diagnostics_for_file(&uri, &file_path).await;
 
                 // Request inlay hint refresh so editors update hints after edits
-                // (e.g., when user adds/removes type annotations)
-                if let Err(e) = self.client.inlay_hint_refresh().await {
-                    // Not all clients support this, so just log and continue
-                    info!(
-                        "Inlay hint refresh request failed (client may not support it): {}",
-                        e
-                    );
-                }
+                // (e.g., when user adds/removes type annotations).
+                // Not awaited here: the client's answer arrives on the same input stream as
+                // the messages queued behind this notification, so a handler that waits for
+                // it can never finish once enough edits are pipelined to fill the queue.
+                let client = self.client.clone();
+                tokio::spawn(async move {
+                    if let Err(e) = client.inlay_hint_refresh().await {
+                        // Not all clients support this, so just log and continue
+                        info!(
+                            "Inlay hint refresh request failed (client may not support it): {}",
+                            e
+                        );
+                    }
+                });
             }
         }
     }
